@@ -10,5 +10,5 @@ class MkdirP(SimpleCommand):
         super().__init__(env, name='mkdir_p', env_var='MKDIR_P',
                          default=default)
 
-    def _call(self, cmd, path):
-        return cmd + [path]
+    def _call(self, cmd, *path):
+        return cmd + list(path)
